@@ -19,14 +19,19 @@ class Timeout(Exception):
     pass
 
 
+_T0 = [0.0, 0.0]
+
+
 def _alarm(signum, frame):
-    raise Timeout('case exceeded its time limit')
+    raise Timeout('case exceeded its time limit (%s after %.1fs cpu, %.1fs wall)' % (
+        'cpu timer' if signum == signal.SIGPROF else 'wall timer', time.process_time() - _T0[0], time.time() - _T0[1]))
 
 
 @contextlib.contextmanager
 def time_limit(seconds):
     """Raise Timeout inside the block after `seconds` of *CPU time of this process* (robust against a loaded
     machine), with a wall-clock backstop at 30x for code that blocks without using CPU."""
+    _T0[0], _T0[1] = time.process_time(), time.time()
     old_p = signal.signal(signal.SIGPROF, _alarm)
     old_a = signal.signal(signal.SIGALRM, _alarm)
     signal.setitimer(signal.ITIMER_PROF, seconds)
